@@ -384,6 +384,14 @@ def r3(ctx):
                 else:
                     if not ('attr:lon(' in a1 and 'attr:lat(' not in a1 and 'attr:lat(' in a2 and 'attr:lon(' not in a2):
                         probs.append(f'centre slots are written as ({a1[:80]}, {a2[:80]}), not (lon, lat)')
+                    # the numbers are read back in the frame named by coord= with its *default* attributes: the centre's
+                    # frame object must be transformed to an instance of that frame (SkyCoord.transform_to keeps the source's
+                    # non-default attributes such as an FK5 equinox, i.e. prints J1975 numbers under J2000)
+                    if radunit is None and not ('attr:transform_to(attr:frame(region.center))' in a1
+                                                and 'attr:transform_to(attr:frame(region.center))' in a2):
+                        probs.append('the centre is printed with its own frame attributes (SkyCoord.transform_to to the frame '
+                                     'class), not in the frame named by coord=: an FK5 centre with equinox J1975 is written as '
+                                     'J1975 numbers labelled J2000 and comes back 0.3 deg away')
                     key = (wci.name, coordsys)
                     if radunit is None:
                         _CENTRE_BASE[key] = (args[1], args[2])
@@ -413,6 +421,20 @@ def r3(ctx):
                 ctx.bad(construct, 'slots-and-units', '; '.join(probs), ser.loc(), {'template': template})
             else:
                 ctx.ok(construct, f'{fields} return to their slots; written in the labelled unit; scales cancel')
+            # orientation across frames: the centre is transformed to the frame named by coordsys, so an angle measured from
+            # that frame's longitude axis has to be corrected by the rotation between the two frames at the centre
+            if coordsys != 'image' and radunit is None and 'angle' in fields and reg is not None:
+                name_, _ = _tok_of(reg.fields.get('angle'))
+                ja = int(re.match(r'T(\d+)', name_).group(1)) if name_ else None
+                if ja is not None and ja < len(args):
+                    at = show(args[ja], 3000)
+                    if 'transform' not in at and 'position_angle' not in at and 'coordsys' not in at and 'frame' not in at:
+                        ctx.bad(f'{wci.name} written in another frame', 'angle-not-rotated',
+                                f'the centre of a {wci.name} is transformed to the frame given by coordsys, but its angle is written '
+                                f'unchanged ({at[:60]}): a region defined in fk5 and written with coordsys="galactic" comes back '
+                                'rotated by the angle between the two frames\' longitude axes at the centre', ser.loc())
+                    else:
+                        ctx.ok(f'{wci.name} written in another frame', 'the angle is corrected for the frame change')
     # polygons: the writer's vertex piece (an f-string inside to_crtf), repeated for three vertices, must be read back as
     # vertices (x: entries 1, 3, 5; y: entries 2, 4, 6), as plain numbers in image coordinates
     sl = m.cls('_ShapeList')
